@@ -38,6 +38,10 @@ INTERESTING = [0, 1, 2, 3, 7, 8, 0x10, 0x1f, 0x7f, 0x80, 0xff, 0x100, 0xffff, 0x
 
 
 class Rng(random.Random):
+    # values that already mean something elsewhere in the scenario (thread ids, pids, string ids, addresses): argument words
+    # are sometimes drawn from here, so that fields of unrelated records coincide far more often than chance would allow
+    pool = ()
+
     def chance(self, p):
         return self.random() < p
 
@@ -46,6 +50,8 @@ class Rng(random.Random):
 
     def word(self):
         r = self.random()
+        if self.pool and r < 0.1:
+            return self.pool[self.randrange(len(self.pool))]
         if r < 0.25:
             return self.pick(INTERESTING)
         if r < 0.55:
